@@ -683,7 +683,15 @@ impl<'a> Gen<'a> {
             5 => format!("{} | split(pat={}) | length", st(self), st(self)),
             6 => format!("{} | replace(from={}, to={})", st(self), st(self), st(self)),
             7 => format!("{} | nth(n={})", self.atom_p(env, Kind::ArrAny), int(self)),
-            8 => format!("range(start={}, end={}, step_by={}) | length", int(self), int(self), int(self)),
+            8 => {
+                // (never 100 000 elements: inside loops and under exhaustive fault injection one
+                // such call turns a run into minutes)
+                let small = |g: &mut Self| {
+                    let v = int(g);
+                    if v == "100000" { "1000".to_string() } else { v }
+                };
+                format!("range(start={}, end={}, step_by={}) | length", small(self), small(self), small(self))
+            }
             9 => format!("{} | trim(pat={})", st(self), st(self)),
             10 => format!("{} is divisible_by(divisor={})", int(self), int(self)),
             11 => format!("{} is {}(pat={})", st(self), self.rng.pick(&["starting_with", "ending_with", "containing"]), st(self)),
